@@ -85,7 +85,7 @@ def mtype(rng, shape, el, kind):
     return f"memref<{'x'.join(map(str, shape))}x{el}{layout_text(rng, shape, kind)}>"
 
 
-def gen_op(rng: random.Random, layouts=("none",), kinds=None):
+def gen_op(rng: random.Random, layouts=("none",), kinds=None, gram=False):
     """One dart.operation in a function @main taking the operand memrefs as arguments."""
     kinds = kinds or ["gemmx_matmul", "gemmx_matmul", "gemmx_gemm", "gemmx_matmul_rescale", "gemmx_gemm_rescale", "gemmx_rescale", "gemmx_conv", "alu", "alu", "xdma_add"]
     kind = rng.choice(kinds)
@@ -96,6 +96,8 @@ def gen_op(rng: random.Random, layouts=("none",), kinds=None):
     prelude = "    %zp = arith.constant 0 : i32\n"
     if kind.startswith("gemmx_matmul") or kind in ("gemmx_gemm", "gemmx_gemm_rescale"):
         M, N, K = pick(), pick(), pick()
+        if kind == "gemmx_matmul" and (gram or rng.random() < 0.35):
+            N = M
         i8_out = kind in ("gemmx_matmul_rescale", "gemmx_gemm_rescale")
         rescale_attrs = RESCALE_ATTRS
         if i8_out and rng.random() < 0.4:
@@ -190,12 +192,19 @@ def gen_op(rng: random.Random, layouts=("none",), kinds=None):
         raise ValueError(kind)
     lks = [lk() for _ in shapes]
     types = [mtype(rng, s, e, k) for s, e, k in zip(shapes, els, lks)]
-    args = ", ".join(f"%a{i}: {t}" for i, t in enumerate(types))
+    names = [f"%a{i}" for i in range(len(shapes))]
+    if kind == "gemmx_matmul" and shapes[0] == [shapes[1][1], shapes[1][0]] and (gram or rng.random() < 0.7):
+        # Gram matrix P * P^T: ONE buffer is passed for both inputs and read through two different access patterns
+        maps[1] = amap(3, ["d1", "d2"])
+        types[1] = types[0]
+        names[1] = names[0]
+        kind = "gemmx_matmul+same-buffer-twice"
+    args = ", ".join(f"{nm}: {t}" for i, (nm, t) in enumerate(zip(names, types)) if nm not in names[:i])
     blk = ", ".join(f"%s{i}: !dart.stream<{e}>" for i, e in enumerate(streams))
     n_in = len(shapes) - 1
     text = f"""builtin.module {{
   func.func @main({args}) {{
-{prelude}    "dart.operation"({", ".join(f"%a{i}" for i in range(len(shapes)))}) <{{patterns = [{", ".join(maps)}], accelerator = "{acc}", operandSegmentSizes = array<i32: {n_in}, 1>}}> ({{
+{prelude}    "dart.operation"({", ".join(names)}) <{{patterns = [{", ".join(maps)}], accelerator = "{acc}", operandSegmentSizes = array<i32: {n_in}, 1>}}> ({{
     ^bb0({blk}):
 {body}
       dart.yield {last} : !dart.stream<{yield_t}>
